@@ -83,6 +83,7 @@ fn main() {
         "C05" => props::c05::run(&ctx),
         "C09" | "C15" => props::c09::run(&ctx),
         "C10" => props::c10::run_check(&ctx),
+        "C17" => props::c17::run_check(&ctx),
         "C19" => props::c19::run_check(&ctx),
         "C12" => props::c12::run(&ctx),
         "C13" => props::c13::run(&ctx),
